@@ -314,7 +314,15 @@ pub fn mutate_tokens(t: &mut Tape, mut toks: Vec<String>) -> Vec<String> {
 
 /// Nesting templates: a program with one construct nested `depth` times.
 pub const TEMPLATES: usize = 8;
+/// Variants of a template: 0 well formed; 1 innermost expression missing; 2 no closing brackets;
+/// 3 wrong innermost closing bracket; 4 half of the closing brackets missing.
+pub const VARIANTS: usize = 5;
+
 pub fn nested_template(which: usize, depth: usize) -> String {
+    nested_template_variant(which, depth, 0)
+}
+
+pub fn nested_template_variant(which: usize, depth: usize, variant: usize) -> String {
     let (open, close, core, frame): (&str, &str, &str, (&str, &str)) = match which % TEMPLATES {
         0 => ("( ", " )", "num", ("let a = ", ";")),
         1 => ("[ ", " ]", "num", ("let a = ", ";")),
@@ -329,9 +337,20 @@ pub fn nested_template(which: usize, depth: usize) -> String {
     for _ in 0..depth {
         s.push_str(open);
     }
-    s.push_str(core);
-    for _ in 0..depth {
-        s.push_str(close);
+    if variant != 1 {
+        s.push_str(core);
+    }
+    let closers = match variant % VARIANTS {
+        2 => 0,
+        4 => depth / 2,
+        _ => depth,
+    };
+    for k in 0..closers {
+        if variant == 3 && k == 0 {
+            s.push_str(if close.trim() == ")" { " ]" } else { " )" });
+        } else {
+            s.push_str(close);
+        }
     }
     s.push_str(frame.1);
     s.push('\n');
